@@ -110,6 +110,10 @@ def make_case(ctx, c):
     keys.append("filter.mfi")
     params["filter.mfi"] = {"filter_method": "median_for_intervals", "interval_indicator": "ib", "regularization": True,
                             "ambiguity_indicator": "", "vertical_depth": (c + 1) % 3, "ambiguity_threshold": 0.7}
+    if c % 3 == 1:
+        # a second refinement, after the filters: its input disparities are no longer cost-volume samples
+        keys.append("refinement.again")
+        params["refinement.again"] = {"refinement_method": ["quadratic", "vfit"][c % 2]}
     if c % 4 != 3:
         keys.append("validation")
         params["validation"] = {"validation_method": "cross_checking_accurate"}
